@@ -1,5 +1,6 @@
 import OpyVerif.Proofs.C08ops
 import OpyVerif.Proofs.C08grow
+import OpyVerif.Model.Pop
 /-!
 C08 at the level of the whole population: the forest of a GP run stays a family of proper expression trees that share
 no node, under **every** sequence of reproduction, mutation and crossover steps (each working on deep copies, as the
@@ -8,13 +9,6 @@ copy is `shift k` onto identities nobody uses yet (`next` is the allocator's hig
 -/
 namespace Opy
 open PNode
-
-structure Pop where
-  trees : List PNode
-  /-- `space.best_tree` (`nil` before the first evaluation) -/
-  best : PNode
-  /-- every identity in use is below `next` -/
-  next : Nat
 
 def Disj (a b : PNode) : Prop := ∀ x ∈ a.ids, x ∉ b.ids
 
@@ -26,47 +20,13 @@ def PopOK (ar : Nat → Nat) (P : Pop) : Prop :=
   (∀ (i j : Nat) (a b : PNode), i ≠ j → P.trees[i]? = some a → P.trees[j]? = some b → Disj a b) ∧
   (P.best = nil ∨ (WF ar P.best ∧ (∀ x ∈ P.best.ids, x < P.next) ∧ ∀ t ∈ P.trees, Disj P.best t))
 
-inductive GPOp where
-  /-- `space.best_tree = copy.deepcopy(space.trees[i])` (the sweep found a new best) -/
-  | recordBest (i : Nat)
-  /-- `space.trees[w] = copy.deepcopy(space.trees[s])` -/
-  | reproduce (w s : Nat)
-  /-- `space.trees[i] = self._mutate(space, space.trees[i], …)` with the point drawn and the branch grown -/
-  | mutate (i point : Nat) (branch : PNode)
-  /-- `space.trees[a], space.trees[b] = self._cross(space.trees[a], space.trees[b], …)` with the two points drawn -/
-  | cross (a b pf pm : Nat)
-
 /-- a grown branch is admissible when it is a proper tree on identities nobody uses (beyond the copies the step makes) -/
 def GPOp.admissible (ar : Nat → Nat) (P : Pop) : GPOp → Prop
   | .reproduce _ _ => True
   | .recordBest _ => True
   | .mutate _ _ branch => WF ar branch ∧ ∀ x ∈ branch.ids, 2 * P.next ≤ x ∧ x < 3 * P.next
-  | .cross a b _ _ => a ≠ b
-
-/-- one step on the population (`none`: the code raises) -/
-def GPOp.apply (P : Pop) : GPOp → Option Pop
-  | .recordBest i =>
-    match P.trees[i]? with
-    | some t => some ⟨P.trees, shift P.next t, 3 * P.next⟩
-    | none => none
-  | .reproduce w s =>
-    match P.trees[s]? with
-    | some t => if w < P.trees.length then some ⟨P.trees.set w (shift P.next t), P.best, 3 * P.next⟩ else none
-    | none => none
-  | .mutate i point branch =>
-    match P.trees[i]? with
-    | some t =>
-      match PNode.mutate (shift P.next t) point branch with
-      | some t' => some ⟨P.trees.set i t', P.best, 3 * P.next⟩
-      | none => none
-    | none => none
-  | .cross a b pf pm =>
-    match P.trees[a]?, P.trees[b]? with
-    | some f, some m =>
-      match PNode.cross (shift P.next f) (shift (2 * P.next) m) pf pm with
-      | some (f', m') => some ⟨(P.trees.set a f').set b m', P.best, 3 * P.next⟩
-      | none => none
-    | _, _ => none
+  | .cross _ _ _ _ => True
+  | .regrow _ tree => WF ar tree ∧ ∀ x ∈ tree.ids, 2 * P.next ≤ x ∧ x < 3 * P.next
 
 theorem shift_ids_range {t : PNode} {k n : Nat} (h : ∀ x ∈ t.ids, x < n) :
     ∀ x ∈ (shift k t).ids, k ≤ x ∧ x < k + n := by
@@ -204,7 +164,6 @@ theorem step_popOK {ar : Nat → Nat} {P P' : Pop} (op : GPOp) (hP : PopOK ar P)
           have := hsub x hx'
           omega
   | cross a b pf pm =>
-    have hab : a ≠ b := hadm
     simp only [GPOp.apply] at h
     cases ha : P.trees[a]? with
     | none => simp [ha] at h
@@ -267,14 +226,23 @@ theorem step_popOK {ar : Nat → Nat} {P P' : Pop} (op : GPOp) (hP : PopOK ar P)
             have := hsub.2 x hx'
             omega)
           exact ⟨hP2, by simp; omega⟩
+  | regrow i tree =>
+    obtain ⟨hbwf, hbr⟩ := hadm
+    simp only [GPOp.apply] at h
+    split at h
+    · cases h
+      refine ⟨popOK_set ⟨h1, h2, h3, h4⟩ i _ _ (by omega) hbwf (fun x hx => (hbr x hx).2) ?_ ?_, by simp; omega⟩
+      · intro j b _ hb x hx hx'
+        have := hbr x hx
+        have := h2 b (mem_of_getElem?_eq_some' hb) x hx'
+        omega
+      · intro hne x hx hx'
+        have := hbestlt hne x hx
+        have := hbr x hx'
+        omega
+    · cases h
 
 /-- a sequence of steps, each admissible in the population it is applied to -/
-def runGPOps (ar : Nat → Nat) : Pop → List GPOp → Option Pop
-  | P, [] => some P
-  | P, op :: ops => match op.apply P with
-    | some P' => runGPOps ar P' ops
-    | none => none
-
 def AllAdmissible (ar : Nat → Nat) : Pop → List GPOp → Prop
   | _, [] => True
   | P, op :: ops => op.admissible ar P ∧ ∀ P', op.apply P = some P' → AllAdmissible ar P' ops
